@@ -63,6 +63,15 @@ mod identify_schema {
     include!(concat!(env!("OUT_DIR"), "/identify.rs"));
 }
 
+/// Verification seam: the generated identify schema and the payload size limit (no logic).
+#[cfg(litep2p_verif)]
+pub mod verif {
+    pub use super::identify_schema::Identify;
+
+    /// Maximum identify payload size.
+    pub const IDENTIFY_PAYLOAD_SIZE: usize = super::IDENTIFY_PAYLOAD_SIZE;
+}
+
 /// Identify configuration.
 pub struct Config {
     /// Protocol name.
